@@ -365,13 +365,23 @@ def run(repo: Repo) -> Result:
     for s in interp.sites.values():
         site_of.setdefault(s.pattern.key, s)
     lps: list[LinePattern] = []
+    unread: list[LinePattern] = []
     for pk, p in interp.patterns.items():
         used = {a[2] for a in all_atoms if a[0] == "g" and a[1] == pk and a[2] != 0}
-        if used and pk in site_of:
-            lps.append(LinePattern(p, site_of[pk], samples, res))
-            lps[-1].used = used
+        if pk not in site_of:
+            continue
+        lp = LinePattern(p, site_of[pk], samples, res)
+        lp.used = used
+        if used:
+            lps.append(lp)
+        elif lp.tree().state.groups > 1 and any(a == 0 and b == len(x) for x in samples for a, b, _c in lp.matches(x)):
+            unread.append(lp)
+    for lp in unread:
+        # the pattern matches documented lines, but no group of it is read according to the flow analysis: either the matches are
+        # thrown away or the analysis lost the flow - no verdict on the lines it would bind
+        res.undecide("C06.R1", lp.key(), f"the pattern `{lp.p.text[:50]}...` matches documented lines, but the analysis sees none of its groups being read", lp.where())
     if not lps:
-        res.undecide("C06.R1", parse_key, f"no regular expression with named groups feeds the parse result (patterns seen: {len(interp.patterns)}; unmodelled: {interp.unknown[:3]})", parse_where)
+        res.undecide("C06.R1", parse_key, f"no regular expression with groups feeds the parse result (patterns seen: {len(interp.patterns)}; unmodelled: {interp.unknown[:3]})", parse_where)
         return res
     res.analysed["patterns"] = {lp.key(): lp.p.text for lp in lps}
     # ---- roles of the groups: what does a group capture in matches that span a whole documented line?
@@ -400,7 +410,8 @@ def run(repo: Repo) -> Result:
     lps = [lp for lp in lps if lp.roles]
     for lp in ignored:
         res.observe(f"C06.R1: pattern `{lp.p.text[:60]}` of {lp.key()} binds no part of a documented line (not a line pattern)")
-    if not lps:
+    lossy = bool(interp.lost_patterns or interp.unknown or unread)
+    if not lps and lossy:
         res.undecide("C06.R1", parse_key, f"no reconstructed pattern matches a documented line as a whole (unmodelled: {(interp.lost_patterns or interp.unknown)[:3]})", parse_where)
         return res
     res.analysed["group_roles"] = {lp.key(): {str(g): sorted(r) for g, r in lp.roles.items()} for lp in lps}
@@ -423,8 +434,9 @@ def run(repo: Repo) -> Result:
         return any(isinstance(x, tuple) for r in recs for x in r)
 
     k = 0
-    anchor_decl = decl_lps[0] if decl_lps else lps[0]
-    anchor_dep = dep_lps[0] if dep_lps else lps[0]
+    fallback = lps[0] if lps else (ignored[0] if ignored else None)
+    anchor_decl = decl_lps[0] if decl_lps else fallback
+    anchor_dep = dep_lps[0] if dep_lps else fallback
     for line, name, alias in decl_forms:
         got, arrows = decl_records(line), dep_records(line)
         k += 1
@@ -436,7 +448,7 @@ def run(repo: Repo) -> Result:
             continue
         ok = got == [(name, alias)] and not arrows
         detail = f"parsed as component {name!r}" + (f" with alias {alias!r}" if alias else "")
-        if not ok and (interp.lost_patterns or (interp.unknown and (name, alias) not in got)):
+        if not ok and (interp.lost_patterns or unread or (interp.unknown and (name, alias) not in got)):
             res.undecide("C06.R1", construct, f"not matched by the reconstructed patterns, but not every pattern could be reconstructed (unmodelled: {(interp.lost_patterns or interp.unknown)[:2]})", anchor_decl.where())
             continue
         if not ok:
@@ -454,7 +466,7 @@ def run(repo: Repo) -> Result:
         extra = [d for d in decls if d not in ((tail, None), (head, None))]
         ok = got == [(tail, head)] and not extra
         detail = f"{tail} depends on {head}"
-        if not ok and (interp.lost_patterns or (interp.unknown and (tail, head) not in got)):
+        if not ok and (interp.lost_patterns or unread or (interp.unknown and (tail, head) not in got)):
             res.undecide("C06.R1", construct, f"not matched by the reconstructed patterns, but not every pattern could be reconstructed (unmodelled: {(interp.lost_patterns or interp.unknown)[:2]})", anchor_dep.where())
             continue
         if not ok:
